@@ -117,6 +117,13 @@ pub fn set_case(name: &'static str, input: &[u8]) {
     CASE_PTR.with(|c| c.set((input.as_ptr() as usize, input.len())));
     CASE_NAME.with(|c| c.set((name.as_ptr() as usize, name.len())));
 }
+/// Run `f` on a thread with the default stack size of a Rust thread (2 MiB). The engine's worker threads have 64 MiB so
+/// that the harness itself never overflows; input-controlled recursion in the code under test, however, has to be judged
+/// against the stack a user's thread really has. An overflow ends the child process and is reported by the supervisor.
+pub fn on_default_stack<R: Send>(f: impl FnOnce() -> R + Send) -> R {
+    std::thread::scope(|s| std::thread::Builder::new().stack_size(2 << 20).spawn_scoped(s, f).expect("spawn").join().unwrap_or_else(|p| std::panic::resume_unwind(p)))
+}
+
 /// Registers the running case for the crash reporter until the guard is dropped.
 pub struct CaseGuard;
 impl Drop for CaseGuard { fn drop(&mut self) { clear_case() } }
